@@ -29,6 +29,40 @@ type c20Case struct {
 	Dropped  []string `json:"dropped"` // names (collections for Flush, partitions otherwise) recorded as dropped at >= ts
 	ReplID   string   `json:"replicate_id"`
 	Malform  string   `json:"malform,omitempty"`
+	// SrcRepl: the source operation already carries a replicate info in its request base ("" = none, "unmarked" =
+	// an empty one, "marked" = stamped by an earlier hop of a replication chain with ITS time and id)
+	SrcRepl string `json:"src_repl,omitempty"`
+}
+
+// c20SetSrcRepl puts a replicate info into the request base of an operation message (whatever its kind).
+func c20SetSrcRepl(m msgstream.TsMsg, mode string) {
+	if mode == "" {
+		return
+	}
+	v := reflect.ValueOf(m).Elem()
+	for i := 0; i < v.NumField(); i++ {
+		f := v.Field(i)
+		if f.Kind() != reflect.Ptr || f.IsNil() || !f.CanInterface() {
+			continue
+		}
+		pm, ok := f.Interface().(proto.Message)
+		if !ok {
+			continue
+		}
+		r := pm.ProtoReflect()
+		fd := r.Descriptor().Fields().ByName("base")
+		if fd == nil {
+			continue
+		}
+		base := r.Mutable(fd).Message().Interface().(*commonpb.MsgBase)
+		if mode == "unmarked" {
+			base.ReplicateInfo = &commonpb.ReplicateInfo{}
+		} else {
+			base.ReplicateInfo = &commonpb.ReplicateInfo{IsReplicate: true, ReplicateID: "a-to-b", MsgTimestamp: 77}
+		}
+		return
+	}
+	panic(fmt.Sprintf("c20SetSrcRepl: no request base in %T", m))
 }
 
 func c20Dropped(cs c20Case) map[string]map[string]uint64 {
@@ -262,6 +296,7 @@ func c20Run(cs c20Case) string {
 	switch cs.Group {
 	case "op":
 		msg := buildOp(cs.Kind, cs.V)
+		c20SetSrcRepl(msg, cs.SrcRepl)
 		pristine := c20Clone(msg)
 		pack := opPack(cs.V.TS, msg)
 		pack.BeginTs = cs.V.TS - 5
@@ -396,6 +431,14 @@ func c20Cases() []c20Case {
 					}
 				}
 			}
+		}
+	}
+	// every operation case also with a source request that already carries a replicate info (a replication chain)
+	for _, cs := range append([]c20Case{}, cases...) {
+		for _, sr := range []string{"unmarked", "marked"} {
+			c := cs
+			c.SrcRepl = sr
+			cases = append(cases, c)
 		}
 	}
 	for i := range eventKinds {
